@@ -2001,6 +2001,7 @@ class unyt_array(np.ndarray):
                     conv, offset = u1.get_conversion_factor(u0, inp1.dtype)
                     new_kind = "c" if inp1.dtype.kind == "c" else "f"
                     new_dtype = np.dtype(new_kind + str(inp1.dtype.itemsize))
+                    factor = conv
                     conv = new_dtype.type(conv)
                     if (
                         offset is not None
@@ -2022,6 +2023,14 @@ class unyt_array(np.ndarray):
                         # bring the temperature difference to u1's scale
                         # instead of bringing u1's readings to the scale of u0
                         inp0 = np.asarray(inp0, dtype=new_dtype) / conv
+                    elif inp1.dtype.kind in ("u", "i"):
+                        # scale integers in double precision before narrowing,
+                        # exactly like in_units does: the factor (or the data)
+                        # may not fit the float type of the data's width even
+                        # when the converted values do
+                        inp1 = np.asarray(
+                            inp1.view(np.ndarray) * factor, dtype=new_dtype
+                        )
                     else:
                         inp1 = np.asarray(inp1, dtype=new_dtype) * conv
             if (
